@@ -623,3 +623,23 @@ M("C14-benign-anyof-loop", "C14", "src/interrogate/interfaceMakerPythonNative.cx
   "          bool all_nonconst = true;\n          for (FunctionRemap *remap : def._remaps) {\n            if (remap->_const_method) {\n              all_nonconst = false;\n            }\n          }\n          out << \"//////////////////\\n\";\n          out << \"// A wrapper function to satisfy Python's internal calling conventions.\\n\";\n          out << \"// \" << ClassName << \" slot \" << rfi->second._answer_location << \" -> \" << fname << \"\\n\";\n          out << \"//////////////////\\n\";\n          out << \"static PyObject *\" << def._wrapper_name << \"(PyObject *self, PyObject *arg) {\\n\";",
   "          bool all_nonconst = true;\n          bool any_this = false;\n          for (FunctionRemap *remap : def._remaps) {\n            if (remap->_const_method) {\n              all_nonconst = false;\n            }\n            if (remap->_has_this) {\n              any_this = true;\n            }\n          }\n          (void)any_this;\n          out << \"//////////////////\\n\";\n          out << \"// A wrapper function to satisfy Python's internal calling conventions.\\n\";\n          out << \"// \" << ClassName << \" slot \" << rfi->second._answer_location << \" -> \" << fname << \"\\n\";\n          out << \"//////////////////\\n\";\n          out << \"static PyObject *\" << def._wrapper_name << \"(PyObject *self, PyObject *arg) {\\n\";",
   benign=True)
+
+# ---------------------------------------------------------------- C02
+M("C02-sub-in-add-slot", "C02", "src/interrogate/interfaceMakerPythonNative.cxx",
+  "      method_name == \"__rsub__\") {\n    def._answer_location = \"nb_subtract\";", "      method_name == \"__rsub__\") {\n    def._answer_location = \"nb_add\";",
+  expect="R02.1|")
+M("C02-swap-dictionary-rows", "C02", "src/interrogate/interfaceMakerPythonNative.cxx",
+  "  { \"operator +\"    , \"__add__\",                0 },\n  { \"operator -\"    , \"__sub__\",                0 },", "  { \"operator +\"    , \"__sub__\",                0 },\n  { \"operator -\"    , \"__add__\",                0 },",
+  expect="R02.1|operator|operator_")
+M("C02-inplace-to-plain-slot", "C02", "src/interrogate/interfaceMakerPythonNative.cxx",
+  "    def._answer_location = \"nb_inplace_xor\";", "    def._answer_location = \"nb_xor\";",
+  expect="R02.1|operator|operator_^=")
+M("C02-invert-binary", "C02", "src/interrogate/interfaceMakerPythonNative.cxx",
+  "    def._answer_location = \"nb_invert\";\n    def._wrapper_type = WT_no_params;", "    def._answer_location = \"nb_invert\";\n    def._wrapper_type = WT_binary_operator;",
+  expect="R02.1|arity|operator_~|nb_invert")
+M("C02-delete-lambda-keyword", "C02", "src/interrogate/interfaceMakerPythonNative.cxx",
+  "  \"lambda\",\n", "",
+  expect="R02.2|keyword|lambda")
+M("C02-benign-reorder-keywords", "C02", "src/interrogate/interfaceMakerPythonNative.cxx",
+  "  \"and\",\n  \"as\",\n", "  \"as\",\n  \"and\",\n",
+  benign=True)
